@@ -100,6 +100,76 @@ def patch_create_transport():
     return n
 
 
+class FakeVendor:
+    """Stands for any object of a vendor library that is not installed (ADwin.ADwin(...), a ctypes library
+    handle, uldaq, zhinst, Aravis ...).  Calling it or reading an attribute gives another FakeVendor; it never
+    touches hardware.  Like the real vendor objects it has no `_rpc_*` and no invented dunder attributes (a
+    catch-all __getattr__ answering `_rpc_method` would make the object look RPC-callable, which no real vendor
+    object does — assumption A2 is about the real ones)."""
+
+    def __init__(self, *a, **k):
+        pass
+
+    def __call__(self, *a, **k):
+        return FakeVendor()
+
+    def __getattr__(self, n):
+        if n.startswith("__") or n.startswith("_rpc"):
+            raise AttributeError(n)
+        return FakeVendor()
+
+
+class FakeModule(types.ModuleType):
+    def __getattr__(self, n):
+        if n.startswith("__") or n.startswith("_rpc"):
+            raise AttributeError(n)
+        return FakeVendor()
+
+
+FAKE_VENDOR_MODULES = ["ADwin", "uldaq", "mcculw", "mcculw.ul", "mcculw.enums", "RPi", "RPi.GPIO", "zhinst",
+                       "zhinst.ziPython", "zhinst.utils", "zhinst.core", "gi", "gi.repository",
+                       "gi.repository.Aravis", "pyvisa", "visa", "PySpin", "usb", "usb.core", "vxi11"]
+
+
+def install_fake_vendor():
+    """sys.modules stubs for vendor libraries that are not installed (a library that IS installed is left
+    alone).  -> names installed"""
+    import importlib.util
+    done = []
+    for name in FAKE_VENDOR_MODULES:
+        if name in sys.modules:
+            continue
+        top = name.split(".")[0]
+        if top not in done and "." not in name:
+            try:
+                if importlib.util.find_spec(name) is not None:
+                    continue
+            except (ImportError, ValueError):
+                pass
+        elif top not in done:
+            continue                       # the real top-level package exists: leave its sub-modules alone
+        m = FakeModule(name)
+        m.__path__ = []
+        sys.modules[name] = m
+        if "." in name:
+            parent, leaf = name.rsplit(".", 1)
+            types.ModuleType.__setattr__(sys.modules[parent], leaf, m)
+        else:
+            done.append(name)
+    return [n for n in FAKE_VENDOR_MODULES if isinstance(sys.modules.get(n), FakeModule)]
+
+
+class _WinSys:
+    """`sys` as seen by a driver module that refuses to construct off Windows"""
+    platform = "win32"
+
+    def __getattr__(self, n):
+        return getattr(sys, n)
+
+
+EXISTING_DIR = os.environ.get("VERIF_SCRATCH", "/var/tmp")
+
+
 def _arg_for(p, variant):
     nm = p.name.lower()
     ann = p.annotation
@@ -110,8 +180,12 @@ def _arg_for(p, variant):
         return "x"
     if variant == 2:
         return 1
+    if "dir" in nm:
+        return EXISTING_DIR
     if variant == 3:
         return "1234"
+    if variant == 4:
+        return "12345678901"
     if "Optional" in str(ann) or "None" in str(ann):
         return None
     if anns in ("str",) or "str" in anns:
@@ -136,9 +210,48 @@ def try_instantiate(cls):
         return _try_instantiate(cls)      # the runner's constructor waits for its (idle) task thread
     threading.Thread.start = lambda self: None
     try:
-        return _try_instantiate(cls)
+        obj, why = _try_instantiate(cls)
+        if obj is not None:
+            return obj, None
+        # second attempt with environment shims: shared-library loaders give a FakeVendor handle, and a driver
+        # module that only constructs on Windows sees sys.platform == "win32"
+        import ctypes
+        mod = sys.modules.get(cls.__module__)
+        saved = [(ctypes.cdll, "LoadLibrary", ctypes.cdll.__dict__.get("LoadLibrary", None)),
+                 (ctypes, "WinDLL", ctypes.__dict__.get("WinDLL", None)),
+                 (ctypes, "CDLL", ctypes.__dict__.get("CDLL", None))]
+        mods = [m for m in sys.modules.values() if m is not None and getattr(m, "__name__", "").startswith(
+            cls.__module__.rsplit(".", 1)[0]) and getattr(m, "ctypes", None) is ctypes]
+        ctypes.cdll.LoadLibrary = lambda *a, **k: FakeVendor()
+        ctypes.WinDLL = lambda *a, **k: FakeVendor()
+        ctypes.CDLL = lambda *a, **k: FakeVendor()
+        swapped_sys = False
+        if mod is not None and getattr(mod, "sys", None) is sys and "Windows" in (why or ""):
+            mod.sys = _WinSys()
+            swapped_sys = True
+        try:
+            obj, why2 = _try_instantiate(cls)
+        finally:
+            for o, n, v in saved:
+                if v is None:
+                    try:
+                        delattr(o, n)
+                    except AttributeError:
+                        pass
+                else:
+                    setattr(o, n, v)
+            if swapped_sys:
+                mod.sys = sys
+            del mods
+        if obj is not None:
+            SHIMMED.append(cls.__qualname__)
+            return obj, None
+        return None, "%s || with loader/platform shims: %s" % (why, why2)
     finally:
         threading.Thread.start = orig
+
+
+SHIMMED = []
 
 
 def _try_instantiate(cls):
@@ -161,7 +274,7 @@ def _try_instantiate(cls):
     params = list(sig.parameters.values())[1:]
     errors = []
     for transport in ("tcp:localhost:5000", "serial:/dev/ttyS0", "udp:localhost:5000"):
-        for variant in (0, 1, 2, 3):
+        for variant in (0, 1, 2, 3, 4):
             args, kwargs = [], {}
             for i, p in enumerate(params):
                 if p.kind in (p.VAR_POSITIONAL, p.VAR_KEYWORD):
@@ -170,7 +283,7 @@ def _try_instantiate(cls):
                     v = StubCtx()
                 elif i == 1:
                     v = "obj"
-                elif p.default is not p.empty and not (variant == 3 and p.default is None):
+                elif p.default is not p.empty and not (variant >= 3 and (p.default is None or "dir" in p.name.lower())):
                     continue
                 elif "transport" in p.name.lower():
                     v = transport
